@@ -4,6 +4,7 @@
 //	                                                            hand-compressed octets of the vector -> Unpack must accept and read the vector's message
 //	compress record <layout> <events.ndjson> <n> <big>          random messages from the record zoo (big: 150-600 records) -> events
 //	compress reexec <layout> <in.ndjson> <out.ndjson>           the messages of recorded events through the real code again
+//	compress dense <layout> <events.ndjson> <n>                 n dense messages (thousands of different equal-length names): see dense.go
 //
 // An event is {bytesC, bytesU, sc, su [, msg]}: the octets packed with and without compression and their
 // part streams (lib/walker).  The judge is TLC (Trace_Compress: Compress!JudgeStreams / ValidCompressed);
@@ -34,6 +35,7 @@ type vec struct {
 	Ddd    []int    `json:"ddd"`
 	Hand   hx.B     `json:"hand"`
 	Implen int      `json:"implen"`
+	Ulen   int      `json:"ulen"` // the specification's length of the message packed without compression (0: not given)
 }
 
 type event struct {
@@ -68,6 +70,9 @@ func main() {
 		record(os.Args[3], n, big)
 	case "reexec":
 		reexec(os.Args[3], os.Args[4])
+	case "dense":
+		n, _ := strconv.Atoi(os.Args[4])
+		dense(os.Args[3], n)
 	default:
 		hx.Die("unknown mode %s", os.Args[1])
 	}
@@ -191,6 +196,21 @@ var poisonStats = map[string]int{}
 // goroutine, by the packing of an unpackable relative of m (poison): a sequence, repeated with every kind of failure.  Every
 // DISTINCT compressed form seen is returned as its own event (a correct packer gives one).
 func packBoth(m *dns.Msg, e *event, sum *hx.Summary, c interface{}) []event {
+	return packBothU(m, e, sum, c, 0)
+}
+
+var refThroughBuffer int
+
+// refBuffer: size of the caller buffer for the reference packing: the specification's uncompressed length + 1 when the
+// vector gives it, else 1 MB.
+func refBuffer(ulen int) int {
+	if ulen > 0 {
+		return ulen + 1
+	}
+	return 1 << 20
+}
+
+func packBothU(m *dns.Msg, e *event, sum *hx.Summary, c interface{}, ulen int) []event {
 	var bu []byte
 	var eu error
 	var forms [][]byte
@@ -198,6 +218,17 @@ func packBoth(m *dns.Msg, e *event, sum *hx.Summary, c interface{}) []event {
 	if p := hx.Catch(func() {
 		m.Compress = false
 		bu, eu = m.Pack()
+		if eu != nil {
+			// the reference packing through a caller buffer that holds the message spelled out (the library sizes its own
+			// buffer from the uncompressed length; a refusal to allocate it is not a refusal of the message)
+			if b2, e2 := m.PackBuffer(make([]byte, refBuffer(ulen))); e2 == nil {
+				bu, eu = append([]byte(nil), b2...), nil
+				refThroughBuffer++
+			}
+		}
+		if eu != nil {
+			return
+		}
 		for round := 0; round < 2; round++ {
 			for _, kind := range poisonKinds {
 				if _, perr := poison(m, kind).Pack(); perr == nil {
@@ -235,7 +266,7 @@ func packBoth(m *dns.Msg, e *event, sum *hx.Summary, c interface{}) []event {
 		c = map[string]interface{}{"event": map[string]interface{}{"g": e.G, "v": e.V, "key": e.Key, "hasmsg": false, "bytesU": hx.FromBytes(bu)}}
 	}
 	if ec != nil {
-		sum.Mis("compress/pack-error:"+e.G, fmt.Sprintf("Pack() with Compress = true fails (%v) on a message that packs without compression", ec), c)
+		sum.Mis("compress/pack-error:"+e.G, fmt.Sprintf("Pack() with Compress = true fails (%v) on a message that packs without compression (%d octets)", ec, len(bu)), c)
 		return nil
 	}
 	su, err := walker.Walk(L, bu)
@@ -252,6 +283,7 @@ func packBoth(m *dns.Msg, e *event, sum *hx.Summary, c interface{}) []event {
 			sum.Mis("compress/compressed-unreadable:"+e.G, fmt.Sprintf("the octets packed with Compress = true cannot be read by an independent reader: %v", err), c)
 			continue
 		}
+		rereadOwn(bc, bu, ne.Sc, e, sum, c)
 		out = append(out, ne)
 	}
 	if len(forms) > 1 {
@@ -346,7 +378,71 @@ func observeVec(v *vec, sum *hx.Summary) []event {
 	}
 	respell(m, v.Ddd)
 	e.Key = typesKey(m)
-	return packBoth(m, &e, sum, v)
+	var c interface{} = v
+	if v.Ulen > 8192 { // a large vector is regenerated from the specification when a finding is re-executed
+		c = map[string]interface{}{"g": v.G, "v": v.V, "regen": true}
+	}
+	return packBothU(m, &e, sum, c, v.Ulen)
+}
+
+// chainClass: the longest pointer chain of a part stream (read off the walker's hints), as a class for finding keys.
+func chainClass(parts []walker.Part) string {
+	hops := make([]int, len(parts)+1)
+	max := 0
+	for i, p := range parts {
+		if p.K == "n" && p.Ptr >= 0 {
+			hops[i+1] = 1
+			if p.Tk >= 1 && p.Tk <= i {
+				hops[i+1] = 1 + hops[p.Tk]
+			}
+			if hops[i+1] > max {
+				max = hops[i+1]
+			}
+		}
+	}
+	switch {
+	case max <= 126:
+		return "chain-upto-126"
+	case max == 127:
+		return "chain-127"
+	}
+	return "chain-over-127"
+}
+
+// rereadOwn: "decode to exactly the same message" and "compressed names are still accepted on input" said of the library's
+// own reader: the octets it packed with Compress = true (which the independent reader could read) must be accepted by
+// Unpack and, for a vector, read as the vector's message (the specification's value, as in accept).  A random message has
+// no abstract value here: only a refusal is reported, and only when the uncompressed octets of the same message are taken.
+var rereads int
+
+func rereadOwn(bc, bu []byte, sc []walker.Part, e *event, sum *hx.Summary, c interface{}) {
+	rereads++
+	u := new(dns.Msg)
+	var err error
+	if p := hx.Catch(func() { err = u.Unpack(bc) }); p != "" {
+		sum.Mis("compress/own-output-panic:"+e.G, "Unpack panicked on octets Pack() produced with Compress = true: "+p, c)
+		return
+	}
+	if err != nil {
+		if e.Msg == nil {
+			if hx.Catch(func() { err = new(dns.Msg).Unpack(bu) }) != "" || err != nil {
+				return // the library does not read the message spelled out either: not a matter of compression
+			}
+		}
+		sum.Mis("compress/own-output-rejected:"+e.G+":"+chainClass(sc), fmt.Sprintf("Unpack refuses the octets Pack() produced with Compress = true (%d octets; the independent reader reads them): %v", len(bc), err), c)
+		return
+	}
+	if e.Msg == nil {
+		return
+	}
+	proj, errs := L.ProjectMsg(u, e.Msg)
+	if len(errs) > 0 {
+		sum.Mis("compress/own-output-misread:"+e.G, fmt.Sprintf("Unpack of the octets packed with Compress = true: %v", errs[0]), c)
+		return
+	}
+	if a, b := wire.Canon(proj), wire.Canon(wire.Normalize(e.Msg)); a != b {
+		sum.Mis("compress/own-output-misread:"+e.G, fmt.Sprintf("Unpack of the octets packed with Compress = true reads %.300s, the specification %.300s", a, b), c)
+	}
 }
 
 func replay(vectors, out string) {
@@ -378,6 +474,8 @@ func replay(vectors, out string) {
 	sum.Note("packimpl_deviations", implDev)
 	sum.Note("poison_packings", poisonStats)
 	sum.Note("packbuffer_calls", packBufferTried)
+	sum.Note("own_reader_on_compressed", rereads)
+	sum.Note("reference_through_caller_buffer", refThroughBuffer)
 	sum.Note("events", w.N)
 	sum.Print()
 }
@@ -498,7 +596,7 @@ func reexec(in, out string) {
 	hx.ReadNDJSON(in, func(i int, e *event) {
 		sum.Evaluations++
 		if e.HasMsg && e.Msg != nil {
-			v := &vec{G: e.G, V: e.V, Msg: *e.Msg, Ddd: e.Ddd, Implen: e.Implen}
+			v := &vec{G: e.G, V: e.V, Msg: *e.Msg, Ddd: e.Ddd, Implen: e.Implen, Ulen: len(e.BytesU)}
 			for _, ne := range observeVec(v, &sum) {
 				w.Emit(ne)
 			}
